@@ -179,3 +179,7 @@ func MapOrder(on bool) {}
 // goroutines: under the engine's scheduler every access becomes a schedule point and is checked
 // for happens-before races. No effect natively.
 func Shared(ptr any, name string) {}
+
+// SharedMap marks a Go map as shared between goroutines: every access to it becomes a schedule
+// point under the engine's scheduler (check-then-insert sequences interleave). No effect natively.
+func SharedMap(m any) {}
